@@ -776,6 +776,67 @@ class GSchema:
             return r.choice(['"id1"', "5", '"x"', "0", "-12", '"007"'])
         return r.choice(self.enums[n])
 
+    def build_programmatic(self, rng, styles=("legacy", "value", "literal")):
+        """The same schema assembled with the type constructors instead of from SDL; every default of
+        an argument / input field is given, at random, in one of `styles`:
+          legacy  - default_value=<internal, already coerced Python value>
+          value   - default=GraphQLDefaultInput(value=<external Python value>)
+          literal - default=GraphQLDefaultInput(literal=<const value node>)   (what SDL building does)
+        Requests must be answered exactly as by the SDL-built schema."""
+        import graphql as g
+        from graphql.language import parse_const_value
+        from graphql.type.definition import GraphQLDefaultInput
+        from graphql.utilities import value_from_ast_untyped
+        from graphql.utilities.coerce_input_value import coerce_input_literal
+        types = {n: getattr(g, "GraphQL" + n) for n in SCALARS}
+
+        def ty(t):
+            if t[0] == "nn":
+                return g.GraphQLNonNull(ty(t[1]))
+            if t[0] == "list":
+                return g.GraphQLList(ty(t[1]))
+            return types[t[1]]
+
+        def default_kw(ts, text):
+            if text is None:
+                return {}
+            node = parse_const_value(text)
+            style = rng.choice(styles)
+            if style == "literal":
+                return {"default": GraphQLDefaultInput(literal=node)}
+            if style == "value":
+                return {"default": GraphQLDefaultInput(value=value_from_ast_untyped(node))}
+            return {"default_value": coerce_input_literal(node, ty(parse_type(ts)))}
+
+        def args_of(args):
+            return {an: g.GraphQLArgument(ty(parse_type(at)), **default_kw(at, d)) for an, at, d in args}
+
+        def fields_of(tn):
+            return lambda: {fn: g.GraphQLField(ty(parse_type(ts)), args_of(args))
+                            for fn, ts, args in self.fields[tn]}
+        for e, vs in self.enums.items():
+            types[e] = g.GraphQLEnumType(e, {v: g.GraphQLEnumValue(v) for v in vs})
+        for n, (one_of, fs) in self.inputs.items():       # in dependency order: defaults are coerced now
+            types[n] = g.GraphQLInputObjectType(
+                n, {fn: g.GraphQLInputField(ty(parse_type(ts)), **default_kw(ts, d)) for fn, ts, d in fs},
+                is_one_of=one_of)
+        for i in self.ifaces:
+            p = self.iface_parent.get(i)
+            types[i] = g.GraphQLInterfaceType(i, fields_of(i), interfaces=(lambda p=p: [types[p]]) if p else None)
+        for o in self.objects + (["Mutation"] if self.has_mutation else []):
+            types[o] = g.GraphQLObjectType(
+                o, fields_of(o), interfaces=lambda o=o: [types[i] for i in self.implements.get(o, [])])
+        for u, ms in self.unions.items():
+            types[u] = g.GraphQLUnionType(u, lambda ms=ms: [types[m] for m in ms])
+        tag = g.GraphQLDirective(
+            "tag", [getattr(g.DirectiveLocation, x) for x in
+                    ("FIELD", "FRAGMENT_SPREAD", "INLINE_FRAGMENT", "QUERY", "MUTATION")],
+            {"n": g.GraphQLArgument(g.GraphQLInt, **default_kw("Int", "1")),
+             "s": g.GraphQLArgument(g.GraphQLList(g.GraphQLNonNull(g.GraphQLString)))},
+            is_repeatable=True)
+        return g.GraphQLSchema(query=types["Query"], mutation=types.get("Mutation") if self.has_mutation else None,
+                               types=list(types.values()), directives=[*g.specified_directives, tag])
+
     def sdl(self):
         out = ["directive @tag(n: Int = 1, s: [String!]) repeatable on FIELD | FRAGMENT_SPREAD | INLINE_FRAGMENT | QUERY | MUTATION"]
         for e, vs in self.enums.items():
